@@ -21,9 +21,10 @@ from pathlib import Path
 
 from tcv import build, hyp, model
 from tcv.hyp import Violation
-from tcv.runtime import RT, InjectedFault, digest_of, provenance, canon_param
+from tcv.runtime import RT, InjectedFault, InjectedInterrupt, digest_of, provenance, canon_param
 
-INSPECTIONS = ['tasks_df', 'str', 'md', 'has_data', 'data_path', 'run_info', 'log', 'readable', 'graph', 'is_forced']
+INSPECTIONS = ['tasks_df', 'str', 'md', 'has_data', 'data_path', 'run_info', 'log', 'readable', 'graph', 'is_forced',
+               'readable_default', 'readable_keep']
 
 
 # ---- executor ---------------------------------------------------------------------------------------------
@@ -73,6 +74,7 @@ class Executor:
     def do(self, op):
         import taskchain
         start = len(RT.log)
+        n_special = len(RT.special)
         res, err = None, None
         kind = op['op']
         try:
@@ -110,8 +112,7 @@ class Executor:
                     ch = self.chain_of({'slot': op['slug_of'][0], 'member': op['slug_of'][1]})
                     if ch is not None:
                         n = self.task_of(ch, op['slug_of'][2])
-                        RT.fail[ch.tasks[n].slugname] = op.get('n', 1)
-                        res = ch.tasks[n].slugname
+                        res = arm_fault(ch.tasks[n], op)
                 else:
                     ch = self.chain_of(op)
                     if ch is None:
@@ -140,10 +141,12 @@ class Executor:
                         res = {'tasks': names}
                     elif kind == 'inspect':
                         res = self.inspect(ch, op['what'])
-        except InjectedFault as e:
+        except (InjectedFault, InjectedInterrupt) as e:
             err = 'InjectedFault'
         except Exception as e:
             err = f'{type(e).__name__}: {e}'[:400]
+            if len(RT.special) < n_special:
+                err = 'InjectedFault'  # an armed save-time fault fired (unserialisable or mistyped value)
             if os.environ.get('TCV_DEBUG'):
                 traceback.print_exc(file=sys.__stderr__)
         obs = {'log': [list(x) for x in RT.log[start:]], 'result': res, 'error': err}
@@ -177,6 +180,13 @@ class Executor:
         if what == 'readable':
             ch.create_readable_filenames(name='nice')
             return {}
+        if what == 'readable_default':
+            # default link name = the config's name (in name mode that IS the result's own file name)
+            ch.create_readable_filenames()
+            return {}
+        if what == 'readable_keep':
+            ch.create_readable_filenames(name='nice', keep_existing=True)
+            return {}
         if what == 'graph':
             n = sorted(ch.tasks)[0]
             return {'req': len(ch.required_tasks(n)), 'dep': len(ch.dependent_tasks(n)), 'nodes': len(ch.graph)}
@@ -190,6 +200,23 @@ class Executor:
             with hyp.quiet_output():
                 out.append([{n: [bool(t.is_forced), bool(t.has_data)] for n, t in ch.tasks.items()} for ch in chains])
         return out
+
+
+def arm_fault(task, op):
+    """Arm the next run of `task`'s class to fail.  how = error (run raises), interrupt (run raises KeyboardInterrupt),
+    save (the run completes but its value cannot be stored: unserialisable element / generator body raising while it is
+    consumed), mistyped (the returned value fails the type check).  Where a form does not apply to the data kind the
+    plain error is armed, so the model only needs to know that the next run of that class fails."""
+    slug, how, k = task.slugname, op.get('how', 'error'), task.meta.get('tcv_kind', 'dict')
+    RT.fail.pop(slug, None)
+    RT.special.pop(slug, None)
+    if how == 'save' and k in ('dict', 'list', 'generator', 'lazy'):
+        RT.special[slug] = 'gen-mid' if k in ('generator', 'lazy') else 'unserializable'
+    elif how == 'mistyped' and k in ('dict', 'list', 'str', 'int', 'numpy', 'frame', 'dir', 'list_numpy'):
+        RT.special[slug] = 'mistyped'
+    else:
+        RT.fail[slug] = op.get('n', 1) * (-1 if how == 'interrupt' else 1)
+    return slug
 
 
 # ---- reference model of the store and the lazy evaluator -------------------------------------------------------
@@ -362,9 +389,11 @@ class StoreModel:
                 o.mem = None
                 # nothing is asserted about records after a failed run - including the dependants whose own attempt had
                 # already started (and opened their log) when the input failed
+                # ... but the run info is written only after a value was stored, so a result that is still there keeps
+                # the run info of the run that produced it; only the log (opened when the attempt started) is the attempt's
                 for x in [o] + pending:
-                    if x.persisting:
-                        self.last_run.pop(self.loc(x), None)
+                    if x.persisting and self.loc(x) in self.last_run:
+                        self.last_run[self.loc(x)] = dict(self.last_run[self.loc(x)], log_valid=False)
                 break
             want = self.expected_digest(mch, o, seq)
             got = entry[5] if len(entry) > 5 else None
@@ -648,6 +677,7 @@ def session_main():
     RT.seq = req.get('seq0', 0)
     for slug, n in req.get('armed', {}).items():
         RT.fail[slug] = n
+    RT.special.update(req.get('special', {}))
     build.load_program(hist['program'])
     ex = Executor(hist, req['data'], req['cfg_root'])
     out = []
@@ -656,7 +686,7 @@ def session_main():
         if req.get('flags'):
             obs['flags'] = ex.flags()
         out.append(obs)
-    sys.__stdout__.write('\n' + json.dumps({'obs': out, 'seq': RT.seq, 'armed': dict(RT.fail)}) + '\n')
+    sys.__stdout__.write('\n' + json.dumps({'obs': out, 'seq': RT.seq, 'armed': dict(RT.fail), 'special': dict(RT.special)}) + '\n')
     sys.__stdout__.flush()
     os._exit(0)
 
